@@ -464,6 +464,32 @@ impl CpcSketch {
     fn lg_k ( & self ) -> ( r : u8 ) ensures r == self . lg_k {
 self . lg_k }
 
+    fn is_empty(&self) -> (r: bool) ensures r == (self.num_coupons == 0) { self.num_coupons == 0 }
+
+    fn flavor(&self) -> (r: Flavor) requires 4 <= self.lg_k <= 26 ensures r == flavor_spec(self.lg_k, self.num_coupons) {
+        determine_flavor(self.lg_k, self.num_coupons)
+    }
+
+    fn surprising_value_table(&self) -> (r: &PairTable) requires self.surprising_value_table is Some ensures *r == self.surprising_value_table->0 {
+        self.surprising_value_table.as_ref().expect("")
+    }
+
+    // opaque (seed hash, float kxp): a fresh EMPTY sketch
+    #[verifier::external_body]
+    fn with_seed(lg_k: u8, seed: u64) -> (r: Self)
+      requires 4 <= lg_k <= 26
+      ensures r.lg_k == lg_k, r.seed == seed, r.first_interesting_column == 0, r.num_coupons == 0, r.surprising_value_table is None,
+        r.window_offset == 0, r.sliding_window@.len() == 0, r.merge_flag == false,
+    { unimplemented!() }
+
+    // opaque: contract copied VERBATIM from the one PROVED in contracts/cpc_core.rs (unit cpc_core)
+    #[verifier::external_body]
+    fn build_bit_matrix(&self) -> (matrix: Vec<u64>)
+      requires self.wf_matrix(), self.surprising_value_table is Some,
+      ensures matrix@.len() == self.k(), forall|r: int, c: int| 0 <= r < self.k() && 0 <= c < 64 ==> bit(matrix@[r], c) == self.mbit(r, c),
+    { unimplemented!() }
+
+
 
     // opaque: contract copied VERBATIM from the one PROVED in contracts/cpc_update.rs (unit cpc_update)
     #[verifier::external_body]
@@ -659,6 +685,167 @@ proof fn lemma_fold(x: u32, lg: u8)
     lemma_lbm(lg as nat);
     assert(lo == (pow2(lg as nat) - 1) as u32);
     assert((y >> 6) == (x >> 6) % (pow2(lg as nat) as u32));
+}
+
+// ================= CpcUnion::reduce_k: the union state folded to a smaller lg_k =================
+#[derive(PartialEq, Eq, Structural)]
+enum Flavor {
+Empty , Sparse , Hybrid , Pinned , Sliding , }
+
+// flavor_spec and the contract of determine_flavor: copied VERBATIM from contracts/cpc_update.rs, where the body is verified
+spec fn flavor_spec(lg_k: u8, c: u32) -> Flavor {
+    let k = pow2(lg_k as nat) as int; let c = c as int;
+    if c == 0 { Flavor::Empty } else if 32 * c < 3 * k { Flavor::Sparse } else if 2 * c < k { Flavor::Hybrid } else if 8 * c < 27 * k { Flavor::Pinned } else { Flavor::Sliding }
+}
+#[verifier::external_body]
+fn determine_flavor(lg_k: u8, num_coupons: u32) -> (r: Flavor)
+  requires 4 <= lg_k <= 26
+  ensures r == flavor_spec(lg_k, num_coupons)
+{ unimplemented!() }
+
+enum UnionState {
+Accumulator ( CpcSketch ) , BitMatrix ( Vec < u64 > ) , }
+
+struct CpcUnion {
+lg_k : u8 , seed : u64 , state : UnionState , }
+
+impl CpcUnion {
+    spec fn k(&self) -> int { pow2(self.lg_k as nat) as int }
+    // the abstract k x 64 matrix of the union, whichever representation holds it
+    spec fn ubit(&self, r: int, c: int) -> bool {
+        match self.state { UnionState::Accumulator(s) => s.mbit(r, c), UnionState::BitMatrix(m) => bit(m@[r], c) }
+    }
+    spec fn uwf(&self) -> bool {
+        &&& 4 <= self.lg_k <= 26
+        &&& match self.state {
+              UnionState::Accumulator(s) => s.wf() && s.lg_k == self.lg_k && !s.windowed(),
+              UnionState::BitMatrix(m) => m@.len() == self.k(),
+            }
+    }
+    // what reduce_k needs of an accumulator beyond uwf
+    spec fn acc_reducible(&self, new_lg_k: u8) -> bool {
+        match self.state {
+            UnionState::Accumulator(s) => new_lg_k <= 18     // inherited from row_col_update (move_window's proved contract)
+                && (s.num_coupons != 0 ==> tshape(s.surprising_value_table->0))   // part of PairTable's invariant in unit cpc_pairtable (pshape), not exported by the by-contract wf()
+                && 8 * (s.num_coupons as int) < (27 + 8 * 56) * pow2(new_lg_k as nat),   // hash-dependent: the folded sketch stays below 59.375 K coupons
+            UnionState::BitMatrix(m) => true,
+        }
+    }
+
+    fn reduce_k(&mut self, new_lg_k: u8)
+      requires old(self).uwf(), 4 <= new_lg_k < old(self).lg_k, old(self).acc_reducible(new_lg_k),
+      ensures final(self).uwf(), final(self).lg_k == new_lg_k, final(self).seed == old(self).seed,
+        /*@C06.reduce_k.fold*/ forall|i: int, c: int| 0 <= i < final(self).k() && 0 <= c < 64 ==>
+            final(self).ubit(i, c) == (exists|r: int| 0 <= r < old(self).k() && r % final(self).k() == i && #[trigger] old(self).ubit(r, c)),
+    {
+        let ghost k0 = self.k();
+        let ghost k1 = pow2(new_lg_k as nat) as int;
+        proof { lemma_k26(self.lg_k); lemma_k26(new_lg_k); lemma_shl_us(new_lg_k); }
+        match &mut self.state {
+            UnionState::Accumulator(sketch) => {
+                let ghost s0 = *sketch;
+                if sketch.is_empty() {
+                    self.lg_k = new_lg_k;
+                    self.state = UnionState::Accumulator(CpcSketch::with_seed(new_lg_k, self.seed));
+                    return;
+                }
+
+                let mut new_sketch = CpcSketch::with_seed(new_lg_k, self.seed);
+                let ghost e = new_sketch;
+                proof { assert(s0.surprising_value_table->0.num_items == s0.num_coupons); }
+                walk_table_updating_sketch(&mut new_sketch, sketch.surprising_value_table());
+
+                let final_new_flavor = new_sketch.flavor();
+                proof {
+                    // SV table had to have something in it: some bit of the folded matrix is set, so the new sketch is not empty
+                    lemma_occupied(s0.surprising_value_table->0);
+                    let x = choose|x: u32| s0.surprising_value_table->0.items().contains(x);
+                    lemma_row_col_us(x);
+                    let i = ((x >> 6) as int) % k1; let c = (x & 63) as int;
+                    lemma_mod_bound((x >> 6) as int, k1);
+                    assert(hits(x, k1, i, c));
+                    assert(new_sketch.mbit(i, c));
+                    lemma_rc_parts(i, c);
+                }
+                // SV table had to have something in it
+                assert_ne!(final_new_flavor, Flavor::Empty);
+                proof {
+                    assert forall|i: int, c: int| 0 <= i < k1 && 0 <= c < 64 implies
+                        /*@C06.reduce_k.fold*/ new_sketch.mbit(i, c) == (exists|r: int| 0 <= r < k0 && r % k1 == i && #[trigger] old(self).ubit(r, c)) by {
+                        assert(forall|r: int| old(self).ubit(r, c) == s0.mbit(r, c));
+                        assert(!e.mbit(i, c));
+                        if exists|x: u32| s0.tbl().contains(x) && #[trigger] hits(x, k1, i, c) {
+                            let x = choose|x: u32| s0.tbl().contains(x) && #[trigger] hits(x, k1, i, c);
+                            lemma_rc_compose(x); lemma_row_col_us(x);
+                            let r = (x >> 6) as int;
+                            assert(0 <= r < k0 && r % k1 == i && old(self).ubit(r, c));
+                        }
+                        if exists|r: int| 0 <= r < k0 && r % k1 == i && #[trigger] old(self).ubit(r, c) {
+                            let r = choose|r: int| 0 <= r < k0 && r % k1 == i && #[trigger] old(self).ubit(r, c);
+                            lemma_rc_parts(r, c);
+                            assert(s0.tbl().contains(rc(r, c)) && hits(rc(r, c), k1, i, c));
+                        }
+                    }
+                }
+                if final_new_flavor == Flavor::Sparse {
+                    self.lg_k = new_lg_k;
+                    self.state = UnionState::Accumulator(new_sketch);
+                    return;
+                }
+
+                // the new sketch has graduated beyond sparse, so convert to bitMatrix
+                self.lg_k = new_lg_k;
+                self.state = UnionState::BitMatrix(new_sketch.build_bit_matrix());
+                proof { assert forall|i: int, c: int| 0 <= i < k1 && 0 <= c < 64 implies self.ubit(i, c) == new_sketch.mbit(i, c) by { } }
+            }
+            UnionState::BitMatrix(matrix) => {
+                let ghost m0 = matrix@;
+                let new_k = 1 << new_lg_k;
+                let mut new_matrix = vec![0; new_k];
+                let ghost z = new_matrix@;
+                or_matrix_into_matrix(&mut new_matrix, new_lg_k, matrix, self.lg_k);
+                proof {
+                    assert forall|i: int, c: int| 0 <= i < k1 && 0 <= c < 64 implies
+                        /*@C06.reduce_k.fold*/ bit(new_matrix@[i], c) == (exists|r: int| 0 <= r < k0 && r % k1 == i && #[trigger] old(self).ubit(r, c)) by {
+                        assert(forall|r: int| old(self).ubit(r, c) == bit(m0[r], c));
+                        if fold_hit(m0, k1, i, k0, c) { let r = choose|r: int| 0 <= r < k0 && r % k1 == i && #[trigger] bit(m0[r], c); assert(0 <= r < k0 && r % k1 == i && old(self).ubit(r, c)); }
+                        if exists|r: int| 0 <= r < k0 && r % k1 == i && #[trigger] old(self).ubit(r, c) { let r = choose|r: int| 0 <= r < k0 && r % k1 == i && #[trigger] old(self).ubit(r, c); assert(0 <= r < k0 && r % k1 == i && bit(m0[r], c)); }
+                        lemma_fold_bit(m0, k1, i, k0, c);
+                        let f = fold_prefix(m0, k1, i, k0);
+                        assert(z[i] == 0u64);
+                        assert(0u64 | f == f) by (bit_vector);
+                    }
+                }
+                self.lg_k = new_lg_k;
+                self.state = UnionState::BitMatrix(new_matrix);
+            }
+        }
+    }
+}
+
+// a table with a non-zero item count holds some item
+proof fn lemma_occupied(t: PairTable)
+  requires t.wf(), t.num_items != 0
+  ensures exists|x: u32| t.items().contains(x)
+{
+    let ss = t.slots@;
+    if pocc(ss) =~= Set::<int>::empty() { }
+    else {
+        let i = choose|i: int| pocc(ss).contains(i);
+        assert(pholds(ss, ss[i]));
+        assert(t.items().contains(ss[i]));
+    }
+}
+proof fn lemma_rc_compose(y: u32) ensures rc((y >> 6) as int, (y & 63) as int) == y {
+    assert((((y >> 6) << 6) | (y & 63)) == y) by (bit_vector);
+    assert((y & 63) < 64) by (bit_vector);
+}
+proof fn lemma_rc_parts(r: int, c: int)
+  requires 0 <= r < 0x400_0000, 0 <= c < 64
+  ensures rc(r, c) >> 6 == r, rc(r, c) & 63 == c
+{
+    let a = r as u32; let b = c as u32;
+    assert(a < 0x400_0000 && b < 64 ==> (((a << 6) | b) >> 6) == a && (((a << 6) | b) & 63) == b) by (bit_vector);
 }
 }
 fn main(){}
